@@ -8,6 +8,9 @@ import XPathV.Theorems.C08
 #print axioms XPathV.Theorems.C08.C08_arith_trees
 #print axioms XPathV.Theorems.C08.C08_main
 #print axioms XPathV.Theorems.C08.C08_evaluate
+#print axioms XPathV.Theorems.C08.C08_sum
+#print axioms XPathV.Theorems.C08.C08_sum_evaluate
+#print axioms XPathV.Theorems.C08.C08_sum_model
 #print axioms XPathV.Theorems.C08.C08_same_operation
 #print axioms XPathV.Theorems.C08.C08_string_of_number
 #print axioms XPathV.Theorems.C08.numeric_ops_ok
